@@ -497,8 +497,17 @@ def r6(db, rep):
         return
     f = fs[0]
     key = "RadioTap::trailer_size"
+    def classify(ret, env):
+        e = facts.strip_all(ret["c"][0]) if ret.get("c") else None
+        for _ in range(4):      # `return c ? 4 : 0`: the arm the enumerated conditions select
+            if e is not None and e["k"] == "ConditionalOperator":
+                try:
+                    e = facts.strip_all(e["c"][1] if formula.ev(e["c"][0], env) else e["c"][2])
+                except KeyError:
+                    return "?"
+        return bool(facts.cval(e)) if e is not None and facts.cval(e) is not None else "?"
     try:
-        atoms, table = formula.truth_table(f, classify=lambda ret, env: bool(facts.cval(ret["c"][0])) if ret.get("c") and facts.cval(ret["c"][0]) is not None else "?")
+        atoms, table = formula.truth_table(f, classify=classify)
     except facts.AnalysisBroken as e:
         rep.analysis_broken("%s: %s" % (key, e))
         return
